@@ -246,25 +246,47 @@ def extract_ctor_loads(tree, cls):
 # --------------------------------------------------------------------------
 # first labels
 
-def _first_label(fn, where):
-    calls = [n for n in ast.walk(fn) if isinstance(n, ast.Call) and isinstance(n.func, ast.Attribute)
-             and n.func.attr == "convert_node_labels_to_integers"]
-    if len(calls) != 1:
-        raise ExtractionError("%s: expected one convert_node_labels_to_integers call, found %d" % (where, len(calls)))
-    c = calls[0]
-    e = None
-    for k in c.keywords:
-        if k.arg == "first_label":
-            e = k.value
-    if e is None and len(c.args) >= 2:
-        e = c.args[1]
-    if e is None:
-        return ("const", 0)
-    if _is_self_attr(e, "start_id"):
-        return ("startId",)
-    if isinstance(e, ast.Constant) and isinstance(e.value, int) and not isinstance(e.value, bool) and e.value >= 0:
-        return ("const", e.value)
-    raise ExtractionError("%s: first_label %s is neither self.start_id nor a literal" % (where, ast.unparse(e)))
+def _relabel_calls(fn, cls, depth=0, seen=None):
+    """convert_node_labels_to_integers calls in `fn` or in the methods of the same class it calls (helpers extracted by a
+    refactoring are followed up to three levels)"""
+    seen = seen if seen is not None else set()
+    out = []
+    for n in ast.walk(fn):
+        if isinstance(n, ast.Call) and isinstance(n.func, ast.Attribute):
+            if n.func.attr == "convert_node_labels_to_integers":
+                out.append(n)
+            elif depth < 3 and isinstance(n.func.value, ast.Name) and n.func.value.id in ("self", "cls", cls.name) \
+                    and n.func.attr not in seen:
+                for m in cls.body:
+                    if isinstance(m, ast.FunctionDef) and m.name == n.func.attr:
+                        seen.add(m.name)
+                        out.extend(_relabel_calls(m, cls, depth + 1, seen))
+    return out
+
+
+def _first_label(fn, where, cls=None):
+    """first_label read from the source, or None when the source has no shape we can read it from
+    (the behavioural probe then decides alone)"""
+    calls = _relabel_calls(fn, cls) if cls is not None else [
+        n for n in ast.walk(fn) if isinstance(n, ast.Call) and isinstance(n.func, ast.Attribute)
+        and n.func.attr == "convert_node_labels_to_integers"]
+    vals = set()
+    for c in calls:
+        e = None
+        for k in c.keywords:
+            if k.arg == "first_label":
+                e = k.value
+        if e is None and len(c.args) >= 2:
+            e = c.args[1]
+        if e is None:
+            vals.add(("const", 0))
+        elif _is_self_attr(e, "start_id"):
+            vals.add(("startId",))
+        elif isinstance(e, ast.Constant) and isinstance(e.value, int) and not isinstance(e.value, bool) and e.value >= 0:
+            vals.add(("const", e.value))
+        else:
+            return None
+    return vals.pop() if len(vals) == 1 else None
 
 
 def _inner_store(tree, outer):
@@ -276,27 +298,38 @@ def _inner_store(tree, outer):
 
 
 def extract_first_labels():
+    """AST reading of first_label per store (None where the source shape is not readable) and the initial start_id"""
     out = {}
     t1, _ = parse(NXPG)
     t2, _ = parse(NXPGD)
     s1 = _inner_store(t1, "NetworkXGraphStorage")
     s2 = _inner_store(t2, "NetworkXGraphStorageDisjoint")
     for key, cls in (("shared", s1), ("disjoint", s2)):
-        a = _first_label(find_func(cls, "add_graph"), key + ".add_graph")
-        b = _first_label(find_func(cls, "add_graph_direct"), key + ".add_graph_direct")
-        if a != b:
+        a = _first_label(find_func(cls, "add_graph"), key + ".add_graph", cls)
+        b = _first_label(find_func(cls, "add_graph_direct"), key + ".add_graph_direct", cls)
+        if a is not None and b is not None and a != b:
             raise ExtractionError("%s store: add_graph and add_graph_direct number nodes differently (%s vs %s)" % (key, a, b))
-        out[key] = a
-    init = find_func(s1, "__init__")
+        out[key] = a if a is not None else b
     v = None
-    for n in ast.walk(init):
-        if isinstance(n, ast.Assign) and len(n.targets) == 1 and _is_self_attr(n.targets[0], "start_id"):
-            if isinstance(n.value, ast.Constant) and isinstance(n.value.value, int):
-                v = n.value.value
-    if v is None:
-        raise ExtractionError("initial start_id not found")
+    for n in ast.walk(s1):
+        if isinstance(n, ast.Assign) and len(n.targets) == 1 and _is_self_attr(n.targets[0], "start_id") \
+                and isinstance(n.value, ast.Constant) and isinstance(n.value.value, int) and not isinstance(n.value.value, bool):
+            v = n.value.value if v is None else v
     out["initial"] = v
     return out
+
+
+def first_labels_from_probe(ids):
+    """classify the observed numbering of two imports in a row (2-node graphs): the same ids twice = a constant first
+    label, consecutive blocks = the store-wide counter"""
+    a, b = ids[1], ids[2]
+    if len(a) != 2 or len(b) != 2 or a[1] != a[0] + 1 or b[1] != b[0] + 1:
+        return None
+    if a == b:
+        return ("const", a[0])
+    if b[0] == a[0] + 2:
+        return ("startId",)
+    return None
 
 
 # --------------------------------------------------------------------------
@@ -428,16 +461,24 @@ def extract():
         raise ExtractionError("the two stores use the reserved node-link keys differently")
     c["roles"] = p["shared"]["roles"]
     c["json_top"] = p["shared"]["top"]
-    # cross-check of the AST reading of first_label by the observed numbering
-    def expect(first, init, k):
-        return ([[init, init + 1], [init + 2, init + 3], [init + 4, init + 5]] if first == ("startId",)
-                else [[first[1], first[1] + 1]] * 3)
-    # the first graph is built by add_node (numbered from the same counter), the two others are imports
+    # first_label: the AST reading (where the source shape is readable) must agree with the observed numbering; where it is
+    # not readable the observation decides. The first graph of the probe is built by add_node (same counter), the two
+    # others are imports.
     for key in ("shared", "disjoint"):
-        first = c["first"][key]
-        init = c["first"]["initial"] if first == ("startId",) else first[1]
-        if p[key]["ids"][1:] != expect(first, init, key)[1:]:
-            raise ExtractionError("%s store: observed node numbering %s contradicts first_label %s" % (key, p[key]["ids"], first))
+        seen = first_labels_from_probe(p[key]["ids"])
+        if seen is None:
+            raise ExtractionError("%s store: node numbering %s of two imports in a row is neither constant nor consecutive" % (
+                key, p[key]["ids"]))
+        if c["first"][key] is not None and c["first"][key] != seen:
+            raise ExtractionError("%s store: observed node numbering %s contradicts first_label %s read from the source" % (
+                key, p[key]["ids"], c["first"][key]))
+        c["first"][key] = seen
+    init = p["shared"]["ids"][0][0] if c["first"]["shared"] == ("startId",) else None
+    if c["first"]["initial"] is None:
+        c["first"]["initial"] = init if init is not None else 1
+    elif init is not None and init != c["first"]["initial"]:
+        raise ExtractionError("initial start_id %s read from the source, but the first node of a fresh store is %s" % (
+            c["first"]["initial"], init))
     tree, src = parse(TOPO)
     c["load"] = {"Topology": extract_load(tree, "Topology"), "AdvertizedTopology": extract_load(tree, "AdvertizedTopology")}
     c["ctor_loads"] = {k: extract_ctor_loads(tree, k) for k in ("Topology", "AdvertizedTopology")}
